@@ -501,7 +501,7 @@ static long long a32_max64(const opus_int16 *nlsf, int d, long long *pq)
    for (k = 0; k < d; k++) {
       int fi = nlsf[k] >> 8, ff = nlsf[k] - (fi << 8);
       long long cv = silk_LSFCosTab_FIX_Q12[fi], dl = silk_LSFCosTab_FIX_Q12[fi + 1] - cv;
-      c[ord[k]] = vrr64((cv << 8) + dl * ff, 4);
+      c[ord[k]] = vrr64(cv * 256 + dl * ff, 4);
    }
    for (pass = 0; pass < 2; pass++) {
       long long *out = pass ? Q : P; const long long *cl = c + pass;
